@@ -19,6 +19,7 @@ CONTRACT = [
     (r"^core::num::<impl \w+>::(pow|abs|div_euclid|rem_euclid|ilog\w*)$", "arith", "overflow"),
     (r"^std::cell::RefCell::<T>::borrow(_mut)?$", "refcell", "already borrowed"),
     (r"^std::string::String::(remove|insert|truncate|split_off|drain)$|^std::str::<impl str>::split_at$", "str-index", "boundary"),
+    (r"^(std|alloc)::vec::from_elem$|^std::vec::Vec::<T(, A)?>::(with_capacity|reserve|reserve_exact|resize)$|^std::string::String::(with_capacity|reserve)$", "alloc", "capacity overflow (more than isize::MAX bytes requested)"),
 ]
 CONTRACT = [(re.compile(r), k, c) for r, k, c in CONTRACT]
 
